@@ -70,3 +70,81 @@ func VerifH_Retry_Pass() {
 		verifAssert(log[i] == want[i], "Retry.requeue_order")
 	}
 }
+
+// U-task (C01, C03): requests queued behind a non-empty retry queue are real closures of the retrying
+// client; when a retry pass runs them on a dead client each fails in turn and re-queues itself.
+// The queue afterwards, run on a healthy client, must put them on the wire in submission order.
+func VerifH_Retry_QueuedFail() {
+	k := verifChoice("queued", verifParam("maxqueued", 3)) + 1
+	rc := &RetryClient{}
+	var order []int
+	// something is already pending, so new requests are queued, not sent
+	rc.retryQueue = append(rc.retryQueue, func(ctx context.Context, cli *BaseClient) error { return nil })
+	dead := newVconn("dead")
+	deadCli := &BaseClient{Transport: dead}
+	dead.answerConnect([]byte{0x20, 2, 0, 0})
+	_, err := deadCli.Connect(context.Background(), "cid")
+	verifAssert(err == nil, "Retry.harness_connect")
+	dead.peerClose()
+	<-deadCli.Done()
+	kinds := make([]int, k)
+	for i := 0; i < k; i++ {
+		kinds[i] = verifChoice("kind", 3) // 0 publish q1, 1 subscribe, 2 unsubscribe
+		switch kinds[i] {
+		case 0:
+			rc.publish(context.Background(), deadCli, &Message{Topic: "t", QoS: QoS1, Payload: []byte{byte(i + 1)}})
+		case 1:
+			rc.subscribe(context.Background(), false, deadCli, Subscription{Topic: string([]byte{'s', byte('a' + i)}), QoS: QoS1})
+		case 2:
+			rc.unsubscribe(context.Background(), deadCli, string([]byte{'s', byte('a' + i)}))
+		}
+	}
+	verifAssert(len(rc.retryQueue) == k+1, "Retry.requests_queued_behind_pending")
+	// a retry pass on the dead client: every queued request fails and re-queues itself
+	rc.Retry(context.Background())
+	task := rc.taskQueue[0]
+	task(context.Background(), deadCli)
+	verifReach("dead-pass-done")
+	verifAssert(len(rc.retryQueue) == k, "Retry.failed_requests_requeued")
+	// now a healthy client: observe the order on the wire
+	c1 := newVconn("c1")
+	cli1 := &BaseClient{Transport: c1}
+	first := true
+	c1.onWrite = func(c *vconn, p []byte) error {
+		var resp []byte
+		if first {
+			first = false
+			resp = []byte{0x20, 2, 0, 0}
+		} else if d := refDecode(p); d.ok {
+			switch d.typ {
+			case 3:
+				order = append(order, int(d.payload[0])-1)
+				resp = refEncodeAck(0x40, d.id)
+			case 8:
+				order = append(order, int(d.filters[0][1]-'a'))
+				resp = append([]byte{0x90, byte(2 + len(d.qoss)), byte(d.id >> 8), byte(d.id)}, d.qoss...)
+			case 10:
+				order = append(order, int(d.filters[0][1]-'a'))
+				resp = refEncodeAck(0xB0, d.id)
+			}
+		}
+		if resp != nil {
+			c.rbuf = append(c.rbuf, resp...)
+			c.nInjected += len(resp)
+			c.signalLocked = true
+		}
+		return nil
+	}
+	_, err = cli1.Connect(context.Background(), "cid")
+	verifAssert(err == nil, "Retry.harness_connect2")
+	q := rc.retryQueue
+	rc.retryQueue = nil
+	for _, f := range q {
+		_ = f(context.Background(), cli1)
+	}
+	c1.Close()
+	verifAssert(len(order) == k, "Retry.every_failed_request_retransmitted_once")
+	for i := 0; i < len(order) && i < k; i++ {
+		verifAssert(order[i] == i, "Retry.retransmission_keeps_submission_order")
+	}
+}
